@@ -489,6 +489,59 @@ fn random_cases(t: Arc<Tables>) -> impl Strategy<Value = Case> {
     ]
 }
 
+const STANDARD_SYMBOLS: [&str; 118] = [
+    "H", "He", "Li", "Be", "B", "C", "N", "O", "F", "Ne", "Na", "Mg", "Al", "Si", "P", "S", "Cl", "Ar", "K", "Ca", "Sc", "Ti", "V", "Cr", "Mn", "Fe",
+    "Co", "Ni", "Cu", "Zn", "Ga", "Ge", "As", "Se", "Br", "Kr", "Rb", "Sr", "Y", "Zr", "Nb", "Mo", "Tc", "Ru", "Rh", "Pd", "Ag", "Cd", "In", "Sn",
+    "Sb", "Te", "I", "Xe", "Cs", "Ba", "La", "Ce", "Pr", "Nd", "Pm", "Sm", "Eu", "Gd", "Tb", "Dy", "Ho", "Er", "Tm", "Yb", "Lu", "Hf", "Ta", "W",
+    "Re", "Os", "Ir", "Pt", "Au", "Hg", "Tl", "Pb", "Bi", "Po", "At", "Rn", "Fr", "Ra", "Ac", "Th", "Pa", "U", "Np", "Pu", "Am", "Cm", "Bk", "Cf",
+    "Es", "Fm", "Md", "No", "Lr", "Rf", "Db", "Sg", "Bh", "Hs", "Mt", "Ds", "Rg", "Cn", "Nh", "Fl", "Mc", "Lv", "Ts", "Og",
+];
+
+/// a symbol that names a substance with an atomic number must be the standard symbol of the
+/// element with that number (so that a formula means the compound a chemist reads it as);
+/// symbols of non-elements (Me, Et, Ac, Ph) are not judged
+pub fn check_symbol(ctx: &Context, sym: &str, known: &BTreeSet<String>, st: &mut Stats) -> CaseResult {
+    let name = match ctx.registry.substance_symbols.get(sym) {
+        Some(n) => n,
+        None => return Ok(()),
+    };
+    let sub = match ctx.registry.substances.get(name) {
+        Some(s) => s,
+        None => return Ok(()),
+    };
+    let z = sub.properties.properties.get("atomic_number").and_then(|p| p.output.value.to_int());
+    let z = match z {
+        Some(z) if z >= 1 && z <= 118 => z as usize,
+        _ => {
+            st.class("symbol_of_a_non_element (not judged)");
+            return Ok(());
+        }
+    };
+    st.eval();
+    st.class("symbol_checked_against_periodic_table");
+    // hydrogen's isotopes have symbols of their own
+    let isotope = z == 1 && (sym == "D" || sym == "T");
+    if STANDARD_SYMBOLS[z - 1] != sym && !isotope {
+        let sig = "symbol-names-another-element";
+        if known.contains(sig) {
+            st.known(sig, sym);
+            return Ok(());
+        }
+        return Err(format!(
+            "[{}] the symbol {} names {} (atomic number {}), whose symbol is {}; {} is the symbol of element {}: a formula with {} is read as another compound",
+            sig,
+            sym,
+            name,
+            z,
+            STANDARD_SYMBOLS[z - 1],
+            sym,
+            STANDARD_SYMBOLS.iter().position(|s| *s == sym).map(|i| (i + 1).to_string()).unwrap_or_else(|| "no".into()),
+            sym
+        ));
+    }
+    Ok(())
+}
+
 pub fn run(cx: &Cx) -> Report {
     let mut rep = Report::new(RULE);
     rep.exhaustive = true;
@@ -524,6 +577,22 @@ pub fn run(cx: &Cx) -> Report {
         items.push(Case::Formula(vec![(s.clone(), Some(4294967295))]));
         items.push(Case::NearMiss(format!("{}4294967296", s)));
     }
+    // the symbol table against the periodic table
+    {
+        let ctx = rinkx::new_ctx();
+        let mut st = Stats::new();
+        let syms: Vec<String> = ctx.registry.substance_symbols.keys().cloned().collect();
+        for sym in syms {
+            if let Err(detail) = check_symbol(&ctx, &sym, &known, &mut st) {
+                rep.violations.push(Violation {
+                    phase: "symbols".into(),
+                    case: json!({"symbol": sym}),
+                    detail,
+                });
+            }
+        }
+        rep.stats.merge(st);
+    }
     rep.stats.note("exhaustive_cases", json!(items.len()));
     let k = known.clone();
     rep.absorb(par_sweep(
@@ -553,6 +622,9 @@ pub fn run(cx: &Cx) -> Report {
 
 pub fn replay(cx: &Cx, _phase: &str, case: &J, st: &mut Stats) -> CaseResult {
     let env = mk_env(cx.known.clone());
+    if let Some(sym) = case.get("symbol").and_then(|s| s.as_str()) {
+        return check_symbol(&env.ctx, sym, &cx.known, st);
+    }
     let c: Case = serde_json::from_value(case.clone()).map_err(|e| format!("bad case: {}", e))?;
     check(&env, &c, st)
 }
